@@ -2,9 +2,11 @@ package main
 
 import (
 	"bytes"
+	crand "crypto/rand"
 	"encoding/json"
 	"fmt"
 	mrand "math/rand"
+	"time"
 
 	"verifharness/hx"
 
@@ -176,4 +178,76 @@ func builder(a *hx.Args, res *hx.Result) {
 			}
 		}
 	})
+	extremeStreams(kps, creds[ck{0, cases[0].N}], res)
+}
+
+// constReader returns the same byte forever.
+type constReader byte
+
+func (c constReader) Read(p []byte) (int, error) {
+	for i := range p {
+		p[i] = byte(c)
+	}
+	return len(p), nil
+}
+
+// extremeStreams: the honest prover when the random source returns only zero bits / only one bits (every randomiser at the
+// lower / upper end of its range): completeness must not depend on the random stream - the response-size bounds of the
+// verifier leave room for the largest randomiser plus the largest challenge times the largest value. (Serial: the reader is
+// process-global; a prover that loops on a constant stream is reported after 60 s.)
+func extremeStreams(kps []hx.KeyPair, cred *gabi.Credential, res *hx.Result) {
+	orig := crand.Reader
+	defer func() { crand.Reader = orig }()
+	pk := cred.Pk
+	P := pk.Params
+	maxAttr := new(big.Int).Sub(new(big.Int).Lsh(big.NewInt(1), P.Lm), big.NewInt(1))
+	for _, stream := range []byte{0x00, 0xff} {
+		for _, vals := range []string{"own", "max"} {
+			c2 := cred
+			if vals == "max" {
+				// every attribute (and the secret) at the largest value the message length allows
+				ms := make([]*big.Int, len(cred.Attributes))
+				for i := range ms {
+					ms[i] = new(big.Int).Set(maxAttr)
+				}
+				sig, err := gabi.SignMessageBlock(kps[0].SK, pk, ms)
+				if err != nil {
+					hx.Fatal("sign: %v", err)
+				}
+				c2 = &gabi.Credential{Signature: sig, Pk: pk, Attributes: ms}
+			}
+			ctx, nonce := big.NewInt(1), big.NewInt(0).Lsh(big.NewInt(1), 79)
+			done := make(chan struct{})
+			var p *gabi.ProofD
+			var err error
+			var panicked bool
+			var msg string
+			crand.Reader = constReader(stream)
+			go func() {
+				panicked, msg = hx.Try(func() { p, err = c2.CreateDisclosureProof([]int{1}, nil, false, ctx, nonce) })
+				close(done)
+			}()
+			label := fmt.Sprintf("stream=%#02x values=%s", stream, vals)
+			select {
+			case <-done:
+			case <-time.After(60 * time.Second):
+				crand.Reader = orig
+				res.Eval("extreme/" + label)
+				res.Violation("prover-hangs-on-random-stream", "CreateDisclosureProof does not return when the random source is constant ("+label+")", hx.M{"stream": stream})
+				return
+			}
+			crand.Reader = orig
+			res.Eval("extreme/" + label)
+			switch {
+			case panicked:
+				res.Violation("prover-panic", "CreateDisclosureProof panicked under a constant random stream ("+label+"): "+msg, hx.M{"stream": stream})
+			case err != nil:
+				res.Violation("honest-proof-not-created", fmt.Sprintf("CreateDisclosureProof failed under a constant random stream (%s): %v", label, err), hx.M{"stream": stream})
+			case !p.Verify(pk, ctx, nonce, false):
+				res.Violation("honest-proof-rejected", "the honest proof made with every randomiser at the end of its range ("+label+") does not verify", hx.M{"stream": stream})
+			default:
+				res.Count("extreme-stream-accepted")
+			}
+		}
+	}
 }
